@@ -12,6 +12,10 @@
     compared with a bfrange only when both have the same number of bytes, so a one-byte prefix of a
     two-byte code cannot match a two-byte range (which would garble every character whose high
     byte lies inside a range that crosses a 256 boundary).
+ R4 the width array covers every character: `generate_width_array` hands every (character, width) pair of the font's width
+    table to the /W builder — between the width query and the builder there is no `filter` / `retain` / `skip_while` and no loop
+    path that skips a pair after comparing its width with a constant. A pair that is left out falls back to /DW, which is wrong
+    for every glyph whose advance differs from the default (zero-advance combining marks get the default 560).
 Not decided: width values, the ToUnicode values themselves, extraction equality.
 """
 from .. import lib as L
@@ -55,6 +59,7 @@ def records(facts, fid, depth=2, seen=None):
 
 
 def run(ctx):
+    r4_width_array_complete(ctx)
     facts = ctx.facts
     from . import C26
     C26.check_range_length_gate(ctx, "R3")
@@ -133,3 +138,35 @@ def run(ctx):
         else:
             ctx.violation("R2", "type0:subset-from-recorded-chars", "the character set handed to the subsetter is not the per-font record "
                           "of used characters", fn.where(sub[0][0]))
+
+
+def r4_width_array_complete(ctx):
+    facts = ctx.facts
+    fn = ctx.fn("writer::pdf_writer::PdfWriter::<W>::generate_width_array", "R4")
+    key = "generate_width_array:no-width-filter"
+    bad = None
+    for f in L.group(facts, fn.id):
+        for b, c, a, d, t, u in f.calls():
+            if isinstance(c, dict) and L.short(c.get("p") or "") in ("filter", "filter_map", "retain", "skip_while", "take_while", "retain_mut"):
+                # closure argument compares something with a constant?
+                for o in a[1:]:
+                    pl = FL.op_place(o)
+                    if pl is None:
+                        continue
+                    ty = f.locals[pl[0]]
+                    for k in facts.closures_of.get(fn.id, ()):
+                        cf = facts.fns[k]
+                        if ("%d:" % cf.lo) in ty or ty.endswith("}") and str(cf.lo) in ty:
+                            cmps = [st for blk in cf.blocks for st in blk[0] if st[2][0] == "bin" and st[2][1] in ("Lt", "Le", "Gt", "Ge", "Eq", "Ne")
+                                    and (FL.op_const(st[2][2]) is not None or FL.op_const(st[2][3]) is not None)]
+                            if cmps:
+                                bad = (f.where(b), L.short(c["p"]))
+    ngw = len(L.calls_to(fn, ["get_glyph_widths"]))
+    if not ctx.floor("R4", "width query in generate_width_array", ngw, 1):
+        return
+    if bad:
+        ctx.violation("R4", key, "generate_width_array passes the font's (character, width) pairs through `%s` with a closure that compares "
+                      "with a constant before building /W: the pairs it drops (e.g. zero-advance combining marks U+0300..U+036F) have no "
+                      "/W entry and are shown with the default width /DW instead of the font's advance" % bad[1], bad[0])
+    else:
+        ctx.ok("R4", key, "every (character, width) pair reaches the /W builder", fn.where())
